@@ -6,16 +6,20 @@
   it finds and scribbles over the element).  S = `Spec/Tokens.lean`: a set of live tokens; `replay` below is
   its transition function on callback events.
 
-  Proved here (for all states, element sizes ≥ 4, element counts, positions and — where stated — all
-  constructor-failure schedules): the destructor loops hand exactly the stored elements to the destructor;
-  releasing the last reference finalises every stored element exactly once and nothing else; an element-wise
-  copy creates one fresh token per element; a refused constructor in the grow loop leaves exactly the
-  constructed elements inside the used size.  The invariant over whole histories is stated
-  (`exactly_once_statement`) but not proved; it is checked on every script by the correspondence harness
-  (both drivers evaluate `replay` and the stored-token comparison after every operation).
+  Proved here, bottom-up, one lemma per loop of the C code (`Lemmas/Tok*.lean`): the destructor loop, the three
+  loops of `mpt_buffer_set` (overwritten elements, gap construction, copy construction with fallback), the gap loop
+  and memmove of `mpt_buffer_insert`, the memmove of `mpt_buffer_cut`, the grow loop of `mpt_array_slice`, the
+  element-wise copy and the move of `detach`, the copy / clear / retype paths of `mpt_array_reserve` — each for
+  all element sizes ≥ 4, counts, positions and EVERY constructor-failure schedule.  On top of these:
+  `exactly_once` (one operation), `exactly_once_history` (whole histories; nothing is alive after the last handle
+  is dropped), `ctor_failure`, and `cxx_exactly_once` (C++ `resize`/`trim`/`skip`/`insert`).  The theorems speak
+  about heaps in which every live buffer holds managed elements (constructor, destructor, ≥ 4 bytes) and about
+  runs whose token counter stays below 2^32 (tokens are 32 bit in the elements).
 -/
 import MptModel.Lemmas.HeapElem
 import MptModel.Lemmas.HeapHist
+import MptModel.Lemmas.TokHist
+import MptModel.Lemmas.TokXX
 import MptModel.Impl.HeapXX
 import MptModel.Spec.Tokens
 namespace Mpt.C05
@@ -155,37 +159,80 @@ example :
        | _ => ([], []))
      | _ => ([], [])) = ([Ev.init 1, Ev.fail], [1, 0, 0, 0]) := by decide
 
-/-! ### the invariant over histories (stated, not proved) -/
+/-! ### the invariant over single operations and whole histories
 
-/-- tokens stored in all live buffers -/
-def stored (s : State) : List Nat := (s.bufs.filterMap id).flatMap Buf.toks
+  Vocabulary (`Lemmas/TokState.lean`, `Lemmas/TokHist.lean`):
+  * `Managed t`: the element type has constructor, destructor and at least 4 bytes (room for the token);
+  * `InvM s`: handles name live buffers, reference count = number of handles ≥ 1, every live buffer holds
+    managed elements, `used ≤ size`, `used` a multiple of the element size;
+  * `stored s`: the tokens found in the element slots `[0, used)` of all live buffers;
+  * `TokInv s live`: `live` is a permutation of `stored s`, without duplicates, below the token counter;
+  * `EOp` / `execE` / `EOp.pre`: the array operations as a caller that handles elements correctly performs
+    them, and what that caller has to respect.
+  Tokens are 32 bit in the elements: everything about tokens is stated for runs whose token counter stays
+  within `tokLimit = 2^32`.  The state `s` is arbitrary, in particular its constructor-failure schedule
+  (`s.oracle`): every statement holds under every schedule. -/
 
-/-- the live set is exactly what the live buffers store, without duplicates, and below the token counter -/
-def TokInv (s : State) (live : Tokens.Live) : Prop :=
-  live.Perm (stored s) ∧ live.Nodup ∧ ∀ t ∈ live, t < s.next
-
-/-- structural invariant without the restriction to plain traits -/
-def InvE (s : State) : Prop :=
-  (∀ h b, s.handle h = some b → ∃ x, s.buf? b = some x) ∧
-  (∀ b x, s.buf? b = some x → x.ref = s.hs.count (some b) ∧ 1 ≤ x.ref ∧ x.used ≤ x.size ∧ x.used % esize x.traits = 0)
-
-/-- exactly once over histories, for every constructor-failure schedule: each operation's new events are legal
-    for the live set and lead to a live set that again equals what the buffers store -/
-def exactly_once_statement : Prop :=
-  ∀ (s : State) (live : Tokens.Live) (op : Op), InvE s → TokInv s live → op.handle < s.hs.length →
-    match exec s op with
+/-- exactly once, one operation, every schedule: no fault; the structural invariant is kept; the callback events
+    of the operation are legal for the live set (every destructor argument is alive, every copy source is alive,
+    every created token is new) and lead to a live set that again is exactly what the buffers store -/
+theorem exactly_once (s : State) (live : Tokens.Live) (op : EOp) (inv : InvM s) (ti : TokInv s live) (pre : op.pre s) :
+    match execE s op with
     | .fault _ => False
-    | .ok s' _ => InvE s' ∧ ∃ live', replay live (s'.log.drop s.log.length) = some live' ∧ TokInv s' live'
-    | .fail s' _ => InvE s' ∧ ∃ live', replay live (s'.log.drop s.log.length) = some live' ∧ TokInv s' live'
+    | .ok s' _ => InvM s' ∧ (s'.next ≤ tokLimit →
+        ∃ live', replay live (s'.log.drop s.log.length) = some live' ∧ TokInv s' live')
+    | .fail s' _ => InvM s' ∧ (s'.next ≤ tokLimit →
+        ∃ live', replay live (s'.log.drop s.log.length) = some live' ∧ TokInv s' live') := by
+  have ok := execE_ok (GoodS.of_inv inv ti) op pre
+  generalize execE s op = r at ok
+  cases r with
+  | fault w => exact ok
+  | ok s' v => exact ⟨Step.inv ok, fun small => Step.replay ok ti small⟩
+  | fail s' e => exact ⟨Step.inv ok, fun small => Step.replay ok ti small⟩
 
-/-- constructor failure for every schedule (here for detach; `exactly_once_statement` covers all operations):
-    stated only; `ctor_failure_partial` above proves the grow loop, `copy_constructs` assumes no refusal -/
-def ctor_failure_statement : Prop :=
-  ∀ (s : State) (live : Tokens.Live) (h n : Nat), InvE s → TokInv s live → h < s.hs.length →
+/-- exactly once over whole histories (failed operations included), every schedule: the events of the history
+    are legal from the initial live set and end in the live set the buffers store; when the last handle has
+    been dropped nothing is alive: every element ever created was destroyed, exactly once -/
+theorem exactly_once_history (s s' : State) (live : Tokens.Live) (ops : List EOp) (inv : InvM s) (ti : TokInv s live)
+    (hi : Hist s ops s') :
+    InvM s' ∧ (s'.next ≤ tokLimit →
+      ∃ live', replay live (s'.log.drop s.log.length) = some live' ∧ TokInv s' live' ∧
+        ((∀ h, s'.handle h = none) → live' = [])) := by
+  have st := hi.step (GoodS.of_inv inv ti)
+  refine ⟨st.inv, fun small => ?_⟩
+  obtain ⟨live', h1, h2⟩ := st.replay ti small
+  refine ⟨live', h1, h2, fun hn => ?_⟩
+  have := h2.1
+  rw [stored_nil_of_no_handle st.inv hn] at this
+  exact List.perm_nil.mp this
+
+/-- constructor failure, every schedule: `detach` (the element-wise copy of a shared buffer; a refused copy
+    constructor falls back to default construction, a refused fallback ends the copy) never faults and keeps the
+    invariants — no element is lost, duplicated as bytes, or left unconstructed inside the used size.  The same
+    holds for `slice`, `insert`, `set` and `reserve` by `exactly_once`. -/
+theorem ctor_failure (s : State) (live : Tokens.Live) (h n : Nat) (inv : InvM s) (ti : TokInv s live) :
     match detachOp s h n with
     | .fault _ => False
-    | .ok s' _ => ∃ live', replay live (s'.log.drop s.log.length) = some live' ∧ TokInv s' live'
-    | .fail s' _ => ∃ live', replay live (s'.log.drop s.log.length) = some live' ∧ TokInv s' live'
+    | .ok s' _ => InvM s' ∧ (s'.next ≤ tokLimit →
+        ∃ live', replay live (s'.log.drop s.log.length) = some live' ∧ TokInv s' live')
+    | .fail s' _ => InvM s' ∧ (s'.next ≤ tokLimit →
+        ∃ live', replay live (s'.log.drop s.log.length) = some live' ∧ TokInv s' live') := by
+  have ok := detachOp_ok (GoodS.of_inv inv ti) h n
+  generalize detachOp s h n = r at ok
+  cases r with
+  | fault w => exact ok
+  | ok s' v => exact ⟨Step.inv ok, fun small => Step.replay ok ti small⟩
+  | fail s' e => exact ⟨Step.inv ok, fun small => Step.replay ok ti small⟩
+
+/-- the hypotheses are met by a real run: empty heap, one handle -/
+example : InvM { hs := [none], wins := [none] } ∧ TokInv { hs := [none], wins := [none] } [] := by
+  refine ⟨⟨fun h b e => ?_, fun b x e => ?_, fun b x e => ?_⟩, ?_, List.nodup_nil, fun t ht => by cases ht⟩
+  · cases h with
+    | zero => simp [State.handle] at e
+    | succ h => simp [State.handle] at e
+  · simp [State.buf?] at e
+  · simp [State.buf?] at e
+  · exact List.Perm.refl _
 
 /-! ### C++ layer -/
 
@@ -201,15 +248,32 @@ example :
        | _ => [])
      | _ => []) = [Ev.fini 3, Ev.fini 4, Ev.fini 5, Ev.fini 6] := by decide
 
-/-- exactly-once for `buffer::trim` / `buffer::skip` / `content<T>::set_length` and the typed wrappers: stated
-    only; the C++ part of the correspondence (kinds te, ue) checks legality of the log after every call -/
-def cxx_exactly_once_statement : Prop :=
-  ∀ (s : State) (live : Tokens.Live) (h n : Nat) (k : XKind), InvE s → TokInv s live → h < s.hs.length →
-    k.t.init = true → k.t.fini.isSome = true →
-    ∀ r, (r = uResize s h k n ∨ r = xTrim s h k n ∨ r = xSkip s h k n ∨ r = uInsert s h k (Int.ofNat n) none none) →
+/-- exactly-once for the C++ layer, every schedule: `unique_array::resize` (reserve + `content<T>::set_length`:
+    `buffer::trim` or default construction of the new elements), `detach()` + `buffer::trim`, `detach()` +
+    `buffer::skip`, and `unique_array::insert` (reserve, `mpt_buffer_insert`, placement construction) on a typed
+    array whose buffer (if any) has the array's element type never fault, keep the structural invariant, and
+    their callback events are legal for the live set and lead to the live set the buffers store -/
+theorem cxx_exactly_once (s : State) (live : Tokens.Live) (h n : Nat) (k : XKind) (inv : InvM s) (ti : TokInv s live)
+    (hlt : h < s.hs.length) (mt : Managed k.t)
+    (hk : ∀ b x, s.handle h = some b → s.buf? b = some x → x.traits = some k.t) :
+    ∀ r, (r = uResize s h k n ∨ r = xTrim s h k n ∨ r = xSkip s h k n ∨ ∃ pos val, r = uInsert s h k pos val none) →
     match r with
     | .fault _ => False
-    | .ok s' _ => ∃ live', replay live (s'.log.drop s.log.length) = some live' ∧ TokInv s' live'
-    | .fail s' _ => ∃ live', replay live (s'.log.drop s.log.length) = some live' ∧ TokInv s' live'
+    | .ok s' _ => InvM s' ∧ (s'.next ≤ tokLimit →
+        ∃ live', replay live (s'.log.drop s.log.length) = some live' ∧ TokInv s' live')
+    | .fail s' _ => InvM s' ∧ (s'.next ≤ tokLimit →
+        ∃ live', replay live (s'.log.drop s.log.length) = some live' ∧ TokInv s' live') := by
+  intro r hr
+  have gs := GoodS.of_inv inv ti
+  have ok : OpOK [] s r := by
+    rcases hr with e | e | e | ⟨pos, val, e⟩
+    · rw [e]; exact uResize_ok gs hlt k mt n
+    · rw [e]; exact xTrim_ok gs hlt k mt n
+    · rw [e]; exact xSkip_ok gs hlt k mt n
+    · rw [e]; exact uInsert_ok gs hlt k mt hk pos val
+  cases r with
+  | fault w => exact ok
+  | ok s' v => exact ⟨Step.inv ok, fun small => Step.replay ok ti small⟩
+  | fail s' e => exact ⟨Step.inv ok, fun small => Step.replay ok ti small⟩
 
 end Mpt.C05
